@@ -572,6 +572,11 @@ printf("dgssvx: Fact=%4d, Trans=%4d, equed=%c\n",
 	       rank-deficient (*info) columns of A. */
 	    *recip_pivot_growth = cPivotGrowth(*info, AA, perm_c, L, U);
         }
+	if ( nofact ) Destroy_CompCol_Permuted(&AC);
+	if ( A->Stype == SLU_NR ) {
+	    Destroy_SuperMatrix_Store(AA);
+	    SUPERLU_FREE(AA);
+	}
 	return;
     }
 
